@@ -232,6 +232,16 @@ class World:
             require(got == e.t, 'held.changed_function',
                     dict(k=k, u=u, got=got, want=e.t))
         inv.check_order(b)
+        if self.A is not None:
+            # the views offered by the dd.autoref wrapper
+            A = self.A
+            want = {x: l for l, x in enumerate(self.order)}
+            require(dict(A.vars) == want, 'order.autoref_vars_stale',
+                    dict(got=dict(A.vars), want=want))
+            require(dict(A.var_levels) == want, 'order.autoref_var_levels')
+            for x, l in want.items():
+                require(A.level_of_var(x) == l and A.var_at_level(l) == x,
+                        'order.autoref_level_queries')
         inv.check_structure(b)
         inv.check_counts(b, led)
         if full:
@@ -606,14 +616,67 @@ class World:
 
     def op_queries(self, i):
         """Read-only queries must agree with the table."""
+        # support of every held reference (cheap), the full battery on
+        # operand i
+        for e in self.held:
+            sup_e = self.api.support(e.ref)
+            want_e = {self.U[j] for j in tt.support(e.t, self.n)}
+            require(set(sup_e) == want_e, 'support.wrong',
+                    dict(got=sorted(sup_e), want=sorted(want_e)))
+        # ... and of every stored node (held or not), through the
+        # wrapped dd.bdd manager: read-only
+        den = Den(self.b, self.U)
+        for x in sorted(self.b._succ)[:80]:
+            sup_x = self.b.support(x)
+            want_x = {self.U[j] for j in tt.support(den(x), self.n)}
+            require(set(sup_x) == want_x, 'support.wrong',
+                    dict(node=x, got=sorted(sup_x), want=sorted(want_x)))
         u, tu = self.pick(i)
         sup = self.api.support(u)
         want = {self.U[j] for j in tt.support(tu, self.n)}
         require(set(sup) == want, 'support.wrong',
                 dict(got=sorted(sup), want=sorted(want)))
         c = self.api.count(u)
-        require(c == tt.popcount(tu) >> (self.n - len(want)),
-                'count.wrong', dict(got=c))
+        base = tt.popcount(tu) >> (self.n - len(want))
+        require(c == base, 'count.wrong', dict(got=c, want=base))
+        k = len(want) + 1 + i % 3
+        c2 = self.api.count(u, k)
+        require(c2 == base << (k - len(want)), 'count.nvars_wrong',
+                dict(got=c2, k=k))
+        if self.kind == 'bdd':
+            for x in self.order:
+                require(bool(self.b.is_essential(u, x)) == (x in want),
+                        'is_essential.wrong', dict(x=x))
+        # pick_iter with the default care set: exactly the models over
+        # the support
+        items = list(self.api.pick_iter(u))
+        require(len(items) == base, 'pick_iter.default_count',
+                dict(got=len(items), want=base))
+        seen = set()
+        for d in items:
+            require(set(d) == want, 'pick_iter.default_not_support',
+                    dict(d=d, support=sorted(want)))
+            idx = 0
+            for x, v in d.items():
+                if v:
+                    idx |= 1 << self.idx[x]
+            # complete with zeros outside the support: still a model
+            require((tu >> idx) & 1, 'pick_iter.not_model', dict(d=d))
+            require(idx not in seen, 'pick_iter.overlap', dict(d=d))
+            seen.add(idx)
+        p = self.api.pick(u)
+        require((p is None) == (tu == 0), 'pick.none_iff_false',
+                dict(p=p))
+        care = set(self.order[:1 + i % max(1, len(self.order))])
+        for d in self.api.pick_iter(u, care_vars=care | want):
+            require(care | want <= set(d), 'pick_iter.care_var_missing',
+                    dict(d=d))
+            idx = 0
+            for x, v in d.items():
+                if v:
+                    idx |= 1 << self.idx[x]
+            require((tu >> idx) & 1, 'pick_iter.not_model', dict(d=d))
+        self.label('queries')
 
     # references ------------------------------------------------------
     def op_incref(self, i):
@@ -709,7 +772,7 @@ class World:
             self.hold(hi, tt.cof(reg, self.n, j, 1), 1)
 
     # collections -----------------------------------------------------
-    def op_gc(self):
+    def op_gc(self, rc=1):
         before = set(self.b._succ)
         self.api.collect_garbage()
         self.check_after_full_gc()
@@ -717,11 +780,14 @@ class World:
         if freed:
             self.label('gc.freed')
             self._freed = getattr(self, '_freed', set()) | freed
-        self.recompute()
+        if rc % 2:
+            # (the battery leaves garbage that re-occupies the freed
+            # numbers, so it is skipped every other time)
+            self.recompute()
 
-    def op_gc_roots(self, mask):
+    def op_gc_roots(self, mask, rc=1):
         if self.kind != 'bdd':
-            return self.op_gc()
+            return self.op_gc(rc)
         nodes = sorted(self.b._succ)
         roots = [u for k, u in enumerate(nodes) if (mask >> (k % 30)) & 1]
         led = self.ledger()
@@ -733,7 +799,8 @@ class World:
             self.label('gc_roots.freed')
             self._freed = getattr(self, '_freed', set()) | (
                 before - set(self.b._succ))
-        self.recompute()
+        if rc % 2:
+            self.recompute()
 
     def recompute(self):
         """Re-issue a battery of calls after a collection: a result
